@@ -35,3 +35,38 @@ def _ref_forward(eng, m, args, fr, dty):
         else:
             nargs.append(a)
     return eng.do_call(inner, nargs, fr, dty)
+
+
+@model(r'^<([A-Z][A-Z0-9_]*) as Deref>::deref$')
+def _lazy_static_deref(eng, m, args, fr, dty):
+    """lazy_static!: run the initialiser (from MIR) once per path"""
+    from .engine import Ref, Cell, Unsupported
+    name = m.group(1)
+    fn = eng.lazy.get(name)
+    if fn is None:
+        return NotImplemented
+    key = 'lazy:' + name
+    if key not in eng.statics:
+        eng.statics[key] = Cell(eng.run(eng.funcs[fn], []), 'static')
+    return Ref(eng.statics[key])
+
+
+@model(r'^<&\[(\w+)\] as TryInto<\[\1; (\d+)\]>>::try_into$|^<\[(\w+); (\d+)\] as TryFrom<&\[\3\]>>::try_from$')
+def _slice_try_into_array(eng, m, args, fr, dty):
+    from .engine import Vec, Ok, Err, Opaque
+    from .models import items_of
+    n = int(m.group(2) or m.group(4))
+    items = items_of(eng, args[0], fr)
+    if len(items) != n:
+        return Err(Opaque('TryFromSliceError'))
+    return Ok(Vec(list(items)))
+
+
+@model(r'^core::num::<impl (u16|u32|u64|u128)>::from_be_bytes$')
+def _from_be_bytes(eng, m, args, fr, dty):
+    import z3
+    from .engine import Int, INT_TYPES
+    from .models import items_of
+    items = items_of(eng, args[0], fr)
+    w, sg = INT_TYPES[m.group(1)]
+    return Int(z3.Concat(*[b.e for b in items]), w, sg)
